@@ -70,6 +70,16 @@ type Destination struct {
 
 // New creates a destination object. Note that it still needs to be told to run via Run().
 func New(routeName string, matcher matcher.Matcher, addr, spoolDir string, spool, pickle bool, periodFlush, periodReConn time.Duration, connBufSize, ioBufSize, spoolBufSize int, spoolMaxBytesPerFile, spoolSyncEvery int64, spoolSyncPeriod, spoolSleep, unspoolSleep time.Duration) (*Destination, error) {
+	// these end up in tickers and buffer sizes, which panic on values that cannot work
+	if periodFlush <= 0 || periodReConn <= 0 {
+		return nil, errors.New("flush and reconn periods must be > 0")
+	}
+	if ioBufSize <= 0 || connBufSize < 0 {
+		return nil, errors.New("iobuf must be > 0 and connbuf must be >= 0")
+	}
+	if spool && (spoolSyncPeriod <= 0 || spoolBufSize < 0) {
+		return nil, errors.New("spoolsyncperiod must be > 0 and spoolbuf must be >= 0")
+	}
 	key := util.Key(routeName, addr)
 	addr, instance := addrInstanceSplit(addr)
 	dest := &Destination{
